@@ -124,6 +124,8 @@ def regions(t, tier):
         out.append(dict(kind='circle', p=[cx, cy, r]))
         out.append(dict(kind='ellipse', p=[cx, cy, r, r / 2, 0.0]))
         out.append(dict(kind='ellipse', p=[cx, cy, r / 2, r, 0.7]))
+        # slender and tall (radius_y >> radius_x), tilted: inside points far beyond radius_x from the centre
+        out.append(dict(kind='ellipse', p=[cx, cy, r / 3, 1.5 * r, -0.4]))
         out.append(dict(kind='annulus', p=[cx, cy, r / 2, r]))
         out.append(dict(kind='poly', name='tri', vx=[cx - r, cx + r, cx + 0.1], vy=[cy - r / 2, cy - r / 3, cy + r]))
         out.append(dict(kind='poly', name='L', vx=[cx - r, cx + r, cx + r, cx, cx, cx - r],
@@ -242,9 +244,16 @@ def evaluate(res, w, case):
         agree = oracle.inside(qx, qy) == exp
         res.count('elements_dropped_by_distance_band', int((~far & ~nan).sum()))
         res.count('elements_dropped_by_stability_only', int((far & ~stable & ~nan).sum()))
-        n_dis = int((far & stable & ~agree & ~nan).sum())
-        if n_dis:
-            res.count('elements_where_geometry_oracle_and_roi_contains_disagree', n_dis)
+        dis = far & stable & ~agree & ~nan
+        if dis.any():
+            # "lies in the region" is a geometric fact: where the region's own contains() and the analytic
+            # geometry disagree away from the boundary, the region is wrong about itself and so is every
+            # selection drawn with it (an earlier version only counted these elements and left them out)
+            res.count('elements_where_geometry_oracle_and_roi_contains_disagree', int(dis.sum()))
+            i = int(np.flatnonzero(dis)[0])
+            res.violation('region-geometry', 'region|%s|%s-%s|contains-vs-geometry' % (kind, xk, yk), case,
+                          dict(row=i, plotted=[float(qx[i]), float(qy[i])], contains=bool(exp[i]), n_bad=int(dis.sum())),
+                          dict(inside=bool(oracle.inside(qx, qy)[i])))
         # rows with a NaN coordinate have no band; the region's own answer for them (False whenever the
         # region looks at that coordinate; a range region ignores the other axis) is the expectation
         ok = (far & stable & agree) | (nan & np.isnan(oracle.bdist(qx, qy)) & stable)
